@@ -234,12 +234,14 @@ Print Assumptions segment_spec.
 (** ** 6. Error typing (used by C15) *)
 
 (* a failing load reports an error whose line number, when it has one, is the number of one of
-   the token lines; the error kinds of the tokenizer and of the RISC-V parser never occur; an
-   error that is not a parser error (PUncaught: Python's ValueError from int()) occurs only when
+   the token lines; the error kinds of the tokenizer and of the RISC-V parser never occur, nor
+   does a memory address error (the loader checks the sizes first), and a memory size error
+   reports the configured size; an error that is not a parser error (PUncaught: Python's ValueError from int()) occurs only when
    some literal on that line is a decimal string of more than 4300 characters *)
 Theorem toy_load_outcomes : forall s toks s' e, toy_load s toks = (s', Some e) ->
   (forall ln, perr_line e = Some ln -> In ln (map fst toks)) /\
-  (match e with PSyntax _ | POdd _ | PVariable _ | PDataDup _ => False | _ => True end) /\
+  (match e with PSyntax _ | POdd _ | PVariable _ | PDataDup _ | PMemAddr _ => False
+           | PMemSize w => w = t_size s | _ => True end) /\
   (forall ln, e = PUncaught ln -> tokens_wf toks ->
      exists x lit, In (ln, x) toks /\ In lit (line_literals x) /\ long_decimal lit).
 Proof. exact toy_load_outcomes_lem. Qed.
